@@ -230,6 +230,71 @@ GZ_FORMATS = {"bed.gz": "bed"}
 ALL_FORMATS = list(FORMATS) + list(GZ_FORMATS)
 
 # ----------------------------------------------------------------------------------------------------------------
+# formats the reader's lazy/eager DECISION keeps eager (run_decision)
+# ----------------------------------------------------------------------------------------------------------------
+# bnp.open(p) / bnp.open(p, lazy=True) do not give a lazy table for every format: the decision in
+# NpDataclassReader._should_be_lazy (an anchor of the property) reads GTF, GFF / GFF3 and multi-line FASTA eagerly
+# whatever was asked for, because their buffers do not support what the lazy class needs (a raw buffer that can be
+# indexed and written).  The statement is about the table "obtained by lazy reading (the default)": for these
+# formats, too, the default read and the lazy=True read must be indistinguishable from the lazy=False read.  They
+# are separate from ALL_FORMATS (own part of the run, own budget), so that the programs, the sampled programs and
+# the time of the formats above stay what they were.  Files from the format specifications: GFF3 / GTF have 9
+# tab-separated columns (seqid, source, type, start, end, score, strand, phase, attributes); "gff3" starts with the
+# "##gff-version 3" pragma and has "###" directive lines between the records (comment lines INSIDE the file);
+# "fasta" is FASTA with the sequences broken into lines of 4 characters, "fasta80" the same records with lines of
+# 80 characters (the line width of the library's writer: writing is the identity).
+
+
+def _gff3(rows):
+    out = b"##gff-version 3\n"
+    for i, r in enumerate(rows):
+        if i and i % 2 == 0:
+            out += b"###\n"
+        out += ("\t".join(str(x) for x in r) + "\n").encode()
+    return out
+
+
+def _fasta_width(width):
+    def writer(rows):
+        out = b""
+        for name, seq in rows:
+            out += (">%s\n" % name).encode()
+            out += b"".join((seq[i:i + width] + "\n").encode() for i in range(0, len(seq), width))
+        return out
+    return writer
+
+
+def _gxf_rows(attr):
+    A = [("chr1", "havana", "gene", 1, 50, ".", "+", ".", attr("g1", None)),
+         ("chr1", "havana", "transcript", 1, 50, ".", "+", ".", attr("g1", "t1")),
+         ("chr1", "ensembl_havana", "exon", 11, 30, "0.5", "+", "0", attr("g1", "t1")),
+         ("chr2", "src", "gene", 101, 1050, ".", "-", ".", attr("gene2", None))]
+    B = [("chrX", "s", "gene", 7, 8, "12", "-", ".", attr("gX", None)),
+         ("c", "another_source", "CDS", 12345, 12399, ".", "+", "2", attr("gX", "tr_long_name.2"))]
+    return A, B
+
+
+def _gff_attr(g, t):
+    return "ID=%s" % g if t is None else "ID=%s;Parent=%s" % (t, g)
+
+
+def _gtf_attr(g, t):
+    return 'gene_id "%s";' % g if t is None else 'gene_id "%s"; transcript_id "%s";' % (g, t)
+
+
+_MFA = ([("r1", "ACGTACGTAC"), ("read2 d", "AC"), ("r3", "GGGTTTAA"), ("s4", "ACGTA")],
+        [("q", "T"), ("qq22", "ACGTACGTACGTA")])
+DECISION_FORMATS = {
+    "gff": (".gff",) + (_tsv,) + _gxf_rows(_gff_attr),
+    "gff3": (".gff3",) + (_gff3,) + _gxf_rows(_gff_attr),
+    "gtf": (".gtf",) + (_tsv,) + _gxf_rows(_gtf_attr),
+    "fasta": (".fa", _fasta_width(4)) + _MFA,
+    "fasta80": (".fasta", _fasta_width(80)) + _MFA,
+}
+FORMATS.update(DECISION_FORMATS)   # after ALL_FORMATS: looked up by name only
+ALL_DECISION_FORMATS = list(DECISION_FORMATS)
+
+# ----------------------------------------------------------------------------------------------------------------
 # header-bearing file pairs ("<format>+hdr"): the same records, but file A and file B of a format start with
 # DIFFERENT header / leading comment lines (different text and a different number of lines); the chunked file AB
 # has the header of A.  Written from the format specifications: '#' comment lines before the first record for the
@@ -607,7 +672,7 @@ class Env:
         return data.decode("latin1")
 
 
-COMMENT_PREFIX = {"sam": "@", "vcf": "#", "vcf0": "#", "pairs": "#", "wig": "#"}
+COMMENT_PREFIX = {"sam": "@", "vcf": "#", "vcf0": "#", "pairs": "#", "wig": "#", "gff": "#", "gff3": "#", "gtf": "#"}
 
 
 def strip_comment_lines(fmt, text):
@@ -691,6 +756,10 @@ def apply_op(env, op, regs, arg, tag):
 
 
 OBSERVE = ("len", "get", "tolist", "item", "str", "iter")
+
+
+def is_go_write(op):
+    return op[0] == "write" and len(op) > 1 and op[1] == "go"
 
 
 class Divergence:
@@ -826,6 +895,14 @@ def _execute(env, prog):
             d.empty = (n == 0)
             if d.kind == HEADER_ONLY:
                 if not soft:
+                    soft.append(d)
+                continue
+            if is_go_write(op):
+                # ["write", "go"]: a write leaves the table what it was in the eager mode whether it succeeds or not, so
+                # the history goes on after a write that diverges (recorded once per kind) - what is read AFTER the
+                # write is compared as well (for BAM / VCF / GFA the eager write fails: a divergence of its own)
+                d.soft = True
+                if not any(x.key() == d.key() for x in soft):
                     soft.append(d)
                 continue
             return "diverged", soft + [d], L, E
@@ -1374,7 +1451,7 @@ class Runner:
             return "skip"
         col.case(case, nontrivial=len(prog) > 0, contract=contract)
         for d in divs:
-            if d.step < len(prog) and d.kind != HEADER_ONLY:
+            if d.step < len(prog) and d.kind != HEADER_ONLY and not getattr(d, "soft", False):
                 bad.add(tprog[:d.step + 1])
             sig = collapsed_signature(env, d)
             if sig is not None:
